@@ -244,3 +244,51 @@ def _(run):
         own = z3.And(z3.Not(fp_none), seekable)
         return z3.If(own, z3.BoolVal(s.ghost['closed'] == 0), z3.BoolVal(s.ghost['closed'] == 1))
     run.post(ex, outs, pre, {'returns-a-false-value-exceptions-propagate': never_swallows, 'closes-its-stream-unless-the-resource-owns-a-seekable-file': closes})
+
+
+# ------------------------------------------------------------------ XMLResource.get_url: every location is canonicalised before it is judged (C12)
+t = Target('resources.XMLResource.get_url', ['C12'], 'xmlschema/resources/xml_resource.py', 'XMLResource.get_url',
+           note='the URL that access_control judges and open() fetches is normalize_url(mapped location, base_url) on EVERY path: the proof of access_control assumes canonical URLs '
+                '(no dot segments, one spelling per file), so a path of get_url that returns a location without normalising it would void that assumption',
+           assumes=['normalize_url and the URI mapper are uninterpreted; the location is a str (bytes and Path are converted to a str first: same path afterwards)'])
+
+
+@t.symbolic
+def _(run):
+    ex = run.exec(); st = new_state()
+    loc = z3.String('location'); base_none = z3.Bool('base_url_none'); base = z3.String('base_url')
+    strip = z3.Function('strip', S, S); mapped = z3.Function('uri_mapper', S, S); norm = z3.Function('normalize_url', S, S, B, S); mapper_kind = z3.Int('mapper_kind')   # 0 none, 1 mapping, 2 callable
+    in_map = z3.Function('in_mapping', S, B)
+    st.objf['self'] = {'_uri_mapper': ('mapper',), '_base_url': VOpt(base_none, VStr(base))}
+    st.env.update(self=VObj('self'), location=VStr(loc))
+    ex.names.update(MutableMapping=OPAQUE, Path=OPAQUE)
+    ex.callees['strip'] = lambda e, s, r, a, k: VStr(strip(r.t))
+
+    def isinstance_(e, s, r, a, k):
+        tn = ast.unparse(a[1])
+        if isinstance(a[0], VStr): return VBool(z3.BoolVal(tn == 'str'))
+        if tn == 'MutableMapping': return VBool(mapper_kind == 1)
+        raise Unsupported('isinstance ' + tn)
+    ex.callees['isinstance'] = isinstance_
+    ex.callees['callable'] = lambda e, s, r, a, k: VBool(mapper_kind == 2)
+    ex.callees['_uri_mapper'] = lambda e, s, r, a, k: VStr(mapped(lift(a[0]).t))
+    ex.callees['normalize_url'] = lambda e, s, r, a, k: VStr(norm(lift(a[0]).t, z3.If(a[1].none, SV(''), a[1].val.t) if isinstance(a[1], VOpt) else lift(a[1]).t, a[1].none if isinstance(a[1], VOpt) else z3.BoolVal(False)))
+    orig_cmp, orig_sub = ex.cmp, ex.e_Subscript
+
+    def cmp(op, l_, r_, s):
+        if isinstance(op, (ast.In, ast.NotIn)) and r_ == ('mapper',):
+            res = in_map(lift(l_).t); return res if isinstance(op, ast.In) else z3.Not(res)
+        return orig_cmp(op, l_, r_, s)
+    ex.cmp = cmp
+
+    def e_Subscript(e, s):
+        if ast.unparse(e.value) == 'self._uri_mapper': return VStr(mapped(lift(ex.ev(e.slice, s)).t))
+        return orig_sub(e, s)
+    ex.e_Subscript = e_Subscript
+    pre = z3.And(mapper_kind >= 0, mapper_kind <= 2)
+    run.inputs.update(location=loc)
+    outs = ex.run(st, pre)
+    u0 = strip(loc)
+    u1 = z3.If(z3.And(mapper_kind == 1, in_map(u0)), mapped(u0), z3.If(mapper_kind == 2, mapped(u0), u0))
+    want = norm(u1, z3.If(base_none, SV(''), base), base_none)
+    run.post(ex, outs, pre, {'result-is-the-normalised-mapped-location': lambda kind, v, s: (v.t == want) if kind == 'return' and isinstance(v, VStr) else z3.BoolVal(False)})
